@@ -18,7 +18,7 @@ CHECKS = {
     "C16": {
         "category": "model_checking",
         "technique": "bounded Kani harnesses on the real MsgHdrBorrow::control_messages / ControlMessageIterator (cmsg macros) under CBMC's pointer checks; control buffers as exactly-sized objects so that any read outside the supplied buffer is a failed check; bounded Kani harnesses on the real UnixStream::write / read (sock.rs wait-for-readiness step) with every system-call answer symbolic, postconditions over the stub kernel's call trace",
-        "text": "PARTIAL and bounded — (a) the ancillary-data clause: for control buffers that one SCM_RIGHTS message with 0, 1 or 2 descriptors fills exactly, for two messages back to back, and for arbitrary bytes under the kernel's record contract with every supplied length 0..=40, the walk yields exactly the SCM_RIGHTS messages in the buffer, in order, with exactly their descriptors, never dereferences or yields anything outside the supplied buffer, and never panics; (b) the code's share of 'bytes reach the peer complete ... when the operation must wait for readiness': UnixStream::write / read report to the caller exactly the count of the kernel's own write/read — the first attempt's if it was ready, otherwise, after ppoll (repeated only on EINTR), that of the one retried call with the same descriptor, buffer and length; Timeout only after ppoll answered 0; every other kernel error passed on — for every combination of system-call answers (<= 3 ppoll calls). What the kernel does with accepted bytes (delivery, ordering, blocking, wall-clock timeouts), try-variants and the kernel's side of sendmsg/recvmsg: not decided.",
+        "text": "PARTIAL and bounded — (a) the ancillary-data clause: for control buffers that one SCM_RIGHTS message with 0, 1 or 2 descriptors fills exactly, for two messages back to back, and for arbitrary bytes under the kernel's record contract with every supplied length 0..=40, the walk yields exactly the SCM_RIGHTS messages in the buffer, in order, with exactly their descriptors, never dereferences or yields anything outside the supplied buffer, and never panics; (b) the code's share of 'bytes reach the peer complete ... when the operation must wait for readiness': UnixStream::write / read and the time-limited TcpStream::read_with_timeout report to the caller exactly the sum of what the kernel's own write/read calls reported, every call being for the part of the buffer not yet transferred (same descriptor), Ok only if the last call succeeded; Timeout only after ppoll answered 0; a limit that does not fit a timespec fails before any system call — for every combination of system-call answers (<= 3 ppoll calls). What the kernel does with accepted bytes (delivery, ordering, blocking, wall-clock timeouts), try-variants and the kernel's side of sendmsg/recvmsg: not decided.",
         "note": "One clause of C16 plus one per-call contract of another; everything about schedules, payload sizes and timing is outside what contracts on this code decide. Bounds: buffers <= 48 bytes, <= 2 messages, <= 2 descriptors. The check found the addr_of! defect in cmsg_nxthdr!/__mhdr_end! (fixed in 912e1c2).",
         "design_ref": "§4.C16, §9.7",
     },
